@@ -20,6 +20,7 @@ import (
 	"strings"
 	"sync"
 	"time"
+	"unicode/utf8"
 
 	"github.com/samaritan-proxy/samaritan/host"
 	"github.com/samaritan-proxy/samaritan/pb/config/protocol"
@@ -106,6 +107,14 @@ func (p *redisProc) addHandler(scope *stats.Scope, cmd string, fn commandHandleF
 }
 
 func (p *redisProc) findHandler(cmd string) (*commandHandler, bool) {
+	// Command names are ASCII. Unicode case mapping would also turn
+	// e.g. "H\u212aEYS" (Kelvin sign) into "hkeys", a name no redis
+	// server accepts.
+	for i := 0; i < len(cmd); i++ {
+		if cmd[i] >= utf8.RuneSelf {
+			return nil, false
+		}
+	}
 	hdlr, ok := p.cmdHdlrs[strings.ToLower(cmd)]
 	return hdlr, ok
 }
